@@ -16,7 +16,7 @@ RULE = ('Reachable removal-enabled states of both classes (histories of 1-10 acc
         'instant (orientation significant when directed), requested delimiter, every line newline-terminated and decodable, '
         'compressed targets carry the gzip/bz2 magic, caller-owned file objects are left open; read_snapshots with matching '
         'parameters gives the model presence (all ordered pairs x probes); the same history written by hand as 3/4-column '
-        'rows (u v t [e]) and parsed gives the model presence. non-trivial = >= 2 pairs, a multi-run timeline and '
+        'rows (u v t [e]) and parsed gives the model presence; 18 fixed round trips of ~250 KiB and 2 of > 1 MiB in every tier. non-trivial = >= 2 pairs, a multi-run timeline and '
         '(directed) a reciprocal pair or (undirected) a self-loop.')
 ASSUMPTIONS = ['e > t', 'encodings whose newline is the single byte 0x0A (the reader splits the binary stream on it)',
                'node ids contain no delimiter, comment marker or whitespace; ASCII-only ids when encoding=ascii']
